@@ -107,17 +107,41 @@ func verifyFunction(P *Program, CS *ContractSet, L *Layout, ct *FuncContract, op
 		return verifyFunctionBV(P, CS, fn, ct, opts, fr)
 	}
 	vc := NewVC(P, CS, L, fn, ct)
-	if err := vc.Generate(); err != nil {
-		fr.Err = err.Error()
-		if strings.Contains(fr.Err, "does not exist (function has") || strings.Contains(fr.Err, "contract says") {
-			// the loop a contract clause is attached to is gone or is a different loop now
-			fr.Obls = append(fr.Obls, &OblReport{Name: ct.Key() + "/contract-target-missing[loop]", Canon: ct.Key() + "/contract-target-missing[loop]",
-				Kind: "target", Func: ct.Key(), Verdict: "failed", Src: fr.Err})
+	err := vc.Generate()
+	var loopGone *OblReport
+	if err != nil && (strings.Contains(err.Error(), "does not exist (function has") || strings.Contains(err.Error(), "contract says")) {
+		// the loop a contract clause is attached to is gone or is a different loop now: that is reported,
+		// and the rest of the contract (pre/postconditions, at-call assertions, frame) is still checked -
+		// without the loop clauses that no longer attach - so that the report also names what the
+		// rewritten code fails to establish
+		loopGone = &OblReport{Name: ct.Key() + "/contract-target-missing[loop]", Canon: ct.Key() + "/contract-target-missing[loop]",
+			Kind: "target", Func: ct.Key(), Verdict: "failed", Src: err.Error()}
+		ct2 := *ct
+		ct2.Loops = map[int]*LoopSpec{}
+		vc = NewVC(P, CS, L, fn, &ct2)
+		if err = vc.Generate(); err != nil {
+			fr.Err = err.Error()
+			fr.Obls = append(fr.Obls, loopGone)
 			return fr
 		}
+		fr.Obls = append(fr.Obls, loopGone)
+	}
+	if err != nil {
+		fr.Err = err.Error()
 		fr.Obls = append(fr.Obls, &OblReport{Name: ct.Key() + "/vc-generation", Canon: ct.Key() + "/vc-generation", Kind: "tool", Func: ct.Key(),
 			Verdict: "tool-error", Src: err.Error()})
 		return fr
+	}
+	if loopGone != nil {
+		// without its loop clauses the frame of the rewritten function is not worth reporting clause by
+		// clause (every heap kind would be listed): keep what the contract says about results and calls
+		kept := vc.obls[:0]
+		for _, o := range vc.obls {
+			if o.Kind != "frame" {
+				kept = append(kept, o)
+			}
+		}
+		vc.obls = kept
 	}
 	for callee := range ct.AtCall {
 		if vc.atCallSeen[callee] == 0 {
@@ -179,6 +203,11 @@ func verifyFunction(P *Program, CS *ContractSet, L *Layout, ct *FuncContract, op
 			switch {
 			case res.Verdict == "disagree":
 				rep.Verdict = "solver-disagreement"
+			case allSolversErrored(res.All):
+				// every solver rejected the query (ill-sorted / malformed SMT): a defect of the generator or
+				// of a contract expression, never a verdict about the code
+				rep.Verdict = "tool-error"
+				rep.Src = "every solver rejected the query: " + strings.TrimSpace(strings.SplitN(res.Output, "\n", 2)[0]) + "  -- clause: " + rep.Src
 			case o.Expect == "sat":
 				// vacuity: sat = fine; unsat = vacuous; unknown = tolerated (quantifiers) but recorded
 				switch res.Verdict {
@@ -535,3 +564,15 @@ func writeReplay(dir, prop string, o *OblReport) string {
 
 // tryReplay is filled in by replay.go; returns true if the counterexample reproduced on the real code.
 var tryReplay = func(opts CheckOpts, o *OblReport, replayPath string) bool { return false }
+
+func allSolversErrored(all map[string]string) bool {
+	if len(all) == 0 {
+		return false
+	}
+	for _, v := range all {
+		if v != "error" {
+			return false
+		}
+	}
+	return true
+}
